@@ -43,7 +43,7 @@ pub fn i64_as_f64(x: i64) -> (r: f64) ensures -9007199254740992 <= x <= 90071992
 pub fn u64_as_f64(x: u64) -> (r: f64) ensures x <= 9007199254740992 ==> fval(r) == FloatV::Exact(x as int) { unimplemented!() }
 
 // rquickjs, as far as the arm uses it
-pub enum JsV { Int(int), Float(FloatV) }
+pub enum JsV { Null, Bool(bool), Int(int), Float(FloatV), Str(Seq<char>), Other(int) }
 #[verifier::external_body]
 pub struct Ctx { _p: u8 }
 impl Clone for Ctx { #[verifier::external_body] fn clone(&self) -> (r: Self) { unimplemented!() } }
@@ -55,7 +55,54 @@ impl JsValue {
     pub fn new_int(ctx: Ctx, v: i32) -> (r: JsValue) ensures r@ == JsV::Int(v as int) { unimplemented!() }
     #[verifier::external_body]
     pub fn new_float(ctx: Ctx, v: f64) -> (r: JsValue) ensures r@ == JsV::Float(fval(v)) { unimplemented!() }
+    #[verifier::external_body]
+    pub fn new_null(ctx: Ctx) -> (r: JsValue) ensures r@ == JsV::Null { unimplemented!() }
+    #[verifier::external_body]
+    pub fn new_bool(ctx: Ctx, v: bool) -> (r: JsValue) ensures r@ == JsV::Bool(v) { unimplemented!() }
+    #[verifier::external_body]
+    pub fn from_string(s: JsString) -> (r: JsValue) ensures r@ == JsV::Str(s.text()) { unimplemented!() }
+    // accessors: Some with the value when the JS value has that type
+    #[verifier::external_body]
+    pub fn as_bool(&self) -> (r: Option<bool>) ensures self@ is Bool ==> r == Some(self@->Bool_0) { unimplemented!() }
+    #[verifier::external_body]
+    pub fn as_int(&self) -> (r: Option<i32>) ensures self@ is Int ==> r is Some && r->Some_0 as int == self@->Int_0 { unimplemented!() }
+    #[verifier::external_body]
+    pub fn as_float(&self) -> (r: Option<f64>) ensures self@ is Float ==> r is Some && fval(r->Some_0) == self@->Float_0 { unimplemented!() }
+    #[verifier::external_body]
+    pub fn as_string(&self) -> (r: Option<&JsString>) ensures self@ is Str ==> r is Some && r->Some_0.text() == self@->Str_0 { unimplemented!() }
 }
+#[verifier::external_body]
+pub struct JsString { _p: u8 }
+impl JsString {
+    pub uninterp spec fn text(&self) -> Seq<char>;
+    #[verifier::external_body]
+    pub fn from_str(ctx: Ctx, s: &String) -> (r: JsResult<JsString>) ensures r is Ok, r->Ok_0.text() == s@ { unimplemented!() }
+    // rquickjs String::to_string: the text of a well-formed string
+    #[verifier::external_body]
+    pub fn to_string(&self) -> (r: JsResult<String>) ensures r is Ok, r->Ok_0@ == self.text() { unimplemented!() }
+}
+// R7: `.unwrap_or(String::from(""))` on the Result of to_string
+#[verifier::external_body]
+pub fn or_empty(r: JsResult<String>) -> (s: String) ensures r is Ok ==> s == r->Ok_0 { unimplemented!() }
+// scalar arms of into_js
+//@@ extract file=acts/src/env/value.rs in="impl<'js> IntoJs<'js> for ActValue" item="fn into_js" arm="serde_json::Value::Null" name=ActValue::into_js::null sig="pub fn into_js_null(ctx: &Ctx) -> JsValue"
+//@@ spec
+    ensures
+        //# J1-null-is-seen-as-null
+        ret@ == JsV::Null,
+//@@ end
+//@@ extract file=acts/src/env/value.rs in="impl<'js> IntoJs<'js> for ActValue" item="fn into_js" arm="serde_json::Value::Bool(v)" name=ActValue::into_js::bool sig="pub fn into_js_bool(v: bool, ctx: &Ctx) -> JsValue"
+//@@ spec
+    ensures
+        //# J1-a-boolean-is-seen-with-the-same-value
+        ret@ == JsV::Bool(v),
+//@@ end
+//@@ extract file=acts/src/env/value.rs in="impl<'js> IntoJs<'js> for ActValue" item="fn into_js" arm="serde_json::Value::String(v)" name=ActValue::into_js::string sig="pub fn into_js_string(v: String, ctx: &Ctx) -> JsValue"
+//@@ spec
+    ensures
+        //# J1-a-string-is-seen-with-the-same-text
+        ret@ == JsV::Str(v@),
+//@@ end
 // ---- oracle (statement): the number the script sees is the workflow's number
 pub open spec fn js_number_is(js: JsV, n: NumV) -> bool {
     match n {
@@ -73,10 +120,72 @@ pub open spec fn js_number_is(js: JsV, n: NumV) -> bool {
         (match v@ { NumV::I(i) => -9007199254740992 <= i <= 9007199254740992, NumV::U(_) => false, NumV::F(_) => true }) ==> js_number_is(ret@, v@),
 //@@ end
 // ---- JS -> JSON, Object arm of `impl FromJs for ActValue`
-pub enum JsonT { Null, Obj(Map<Seq<char>, JsonT>), Other(int) }
+pub enum JsonT { Null, Bool(bool), Int(int), Float(FloatV), Str(Seq<char>), Obj(Map<Seq<char>, JsonT>), Other(int) }
 #[verifier::external_body]
 pub struct JsonValue { _p: u8 }
 impl JsonValue { pub uninterp spec fn view(&self) -> JsonT; }
+
+// ---- JS -> JSON, scalar arms of `impl FromJs for ActValue`
+pub trait ToJson: Sized { spec fn tj(&self) -> JsonT; }
+impl ToJson for bool { open spec fn tj(&self) -> JsonT { JsonT::Bool(*self) } }
+impl ToJson for i32 { open spec fn tj(&self) -> JsonT { JsonT::Int(*self as int) } }
+impl ToJson for i64 { open spec fn tj(&self) -> JsonT { JsonT::Int(*self as int) } }
+impl ToJson for f64 { open spec fn tj(&self) -> JsonT { JsonT::Float(fval(*self)) } }
+impl ToJson for String { open spec fn tj(&self) -> JsonT { JsonT::Str(self@) } }
+// R7: `serde_json::json!(x)` of a scalar; `serde_json::json!(null)`
+#[verifier::external_body]
+pub fn json_of<T: ToJson>(x: T) -> (r: JsonValue) ensures r@ == x.tj() { unimplemented!() }
+#[verifier::external_body]
+pub fn json_null() -> (r: JsonValue) ensures r@ == JsonT::Null { unimplemented!() }
+// oracle (statement): "a value returned or set by a script is stored unchanged"
+pub open spec fn scalar_image(js: JsV) -> JsonT {
+    match js { JsV::Null => JsonT::Null, JsV::Bool(b) => JsonT::Bool(b), JsV::Int(i) => JsonT::Int(i), JsV::Float(f) => JsonT::Float(f), JsV::Str(s) => JsonT::Str(s), JsV::Other(k) => JsonT::Other(k) }
+}
+//@@ extract file=acts/src/env/value.rs in="impl<'js> FromJs<'js> for ActValue" item="fn from_js" arm="rquickjs::Type::Null | rquickjs::Type::Undefined | rquickjs::Type::Uninitialized" name=ActValue::from_js::null sig="pub fn from_js_null(ctx: &Ctx, v: JsValue) -> JsResult<JsonValue>"
+//@@ rw R7 `serde_json :: json ! ( null )` => `json_null()`
+//@@ spec
+    ensures
+        //# J2-null-and-undefined-are-stored-as-null
+        ret is Ok && ret->Ok_0@ == JsonT::Null,
+//@@ end
+//@@ extract file=acts/src/env/value.rs in="impl<'js> FromJs<'js> for ActValue" item="fn from_js" arm="rquickjs::Type::Bool" name=ActValue::from_js::bool sig="pub fn from_js_bool(ctx: &Ctx, v: JsValue) -> JsResult<JsonValue>"
+//@@ rw R7 `serde_json :: json ! ( $A:args )` => `json_of($A)`
+//@@ spec
+    requires v@ is Bool
+    ensures
+        //# J2-a-boolean-is-stored-unchanged
+        ret is Ok && ret->Ok_0@ == scalar_image(v@),
+//@@ end
+//@@ extract file=acts/src/env/value.rs in="impl<'js> FromJs<'js> for ActValue" item="fn from_js" arm="rquickjs::Type::Int" name=ActValue::from_js::int sig="pub fn from_js_int(ctx: &Ctx, v: JsValue) -> JsResult<JsonValue>"
+//@@ rw R7 `serde_json :: json ! ( $A:args )` => `json_of($A)`
+//@@ spec
+    requires v@ is Int
+    ensures
+        //# J2-an-integer-is-stored-unchanged
+        ret is Ok && ret->Ok_0@ == scalar_image(v@),
+//@@ end
+//@@ extract file=acts/src/env/value.rs in="impl<'js> FromJs<'js> for ActValue" item="fn from_js" arm="rquickjs::Type::Float" name=ActValue::from_js::float sig="pub fn from_js_float(ctx: &Ctx, v: JsValue) -> JsResult<JsonValue>"
+//@@ rw R7 `serde_json :: json ! ( $A:args )` => `json_of($A)`
+//@@ spec
+    requires v@ is Float
+    ensures
+        //# J2-a-float-is-stored-as-the-same-double
+        ret is Ok && ret->Ok_0@ == scalar_image(v@),
+//@@ end
+//@@ extract file=acts/src/env/value.rs in="impl<'js> FromJs<'js> for ActValue" item="fn from_js" arm="rquickjs::Type::String" name=ActValue::from_js::string sig="pub fn from_js_string(ctx: &Ctx, v: JsValue) -> JsResult<JsonValue>"
+//@@ rw R7 `. unwrap_or ( String :: from ( "" ) )` => `.or_empty_s()`
+//@@ rw R7 `serde_json :: json ! ( $A:args )` => `json_of($A)`
+//@@ spec
+    requires v@ is Str
+    ensures
+        //# J2-a-string-is-stored-with-the-same-text
+        ret is Ok && ret->Ok_0@ == scalar_image(v@),
+//@@ end
+pub trait OrEmpty { fn or_empty_s(self) -> String; }
+impl OrEmpty for JsResult<String> {
+    #[verifier::external_body]
+    fn or_empty_s(self) -> (s: String) ensures self is Ok ==> s == self->Ok_0 { unimplemented!() }
+}
 #[verifier::external_body]
 pub struct JsonMap { _p: u8 }
 impl JsonMap {
@@ -89,6 +198,7 @@ impl JsonMap {
 // R7: `serde_json::Value::Object(value)`
 #[verifier::external_body]
 pub fn json_object(m: JsonMap) -> (r: JsonValue) ensures r@ == JsonT::Obj(m@) { unimplemented!() }
+#[derive(Debug)]
 pub struct JsError {}
 pub type JsResult<T> = std::result::Result<T, JsError>;
 // a JS object: its own enumerable string keys (in order) and members
